@@ -22,14 +22,32 @@
 using c17::CountingAlloc;
 using c17::Ledger;
 
-template <bool IsMap>
+// key types: int, or a heap-owning std::string (41 characters, so never in the small-string buffer) whose moved-from
+// state differs from its value — a cache that reads a key after moving from it misbehaves only with such a type
+template <class KT>
+struct KeyOps;
+template <>
+struct KeyOps<int> {
+    static int make(int k) { return k; }
+    static int get(const int& k) { return k; }
+    static const char* nm() { return ""; }
+};
+template <>
+struct KeyOps<std::string> {
+    static std::string make(int k) { return std::string(1, (char)('a' + k)) + std::string(40, 'x'); }
+    static int get(const std::string& k) { return k.size() == 41 ? k[0] - 'a' : -1; }  // -1: moved-from or corrupted
+    static const char* nm() { return "-strkeys"; }
+};
+
+template <bool IsMap, class KT = int>
 struct LruSys {
     typedef std::pair<int, int> KV;
-    typedef typename std::conditional<IsMap, tlx::LruCacheMap<int, int, CountingAlloc<std::pair<int, int>>>,
-                                      tlx::LruCacheSet<int, CountingAlloc<int>>>::type Cache;
+    typedef KeyOps<KT> KO;
+    typedef typename std::conditional<IsMap, tlx::LruCacheMap<KT, int, CountingAlloc<std::pair<KT, int>>>,
+                                      tlx::LruCacheSet<KT, CountingAlloc<KT>>>::type Cache;
     int nkeys;
     explicit LruSys(int nk) : nkeys(nk) {}
-    std::string name() const { return vh::fmt("%s-k%d", IsMap ? "LruCacheMap" : "LruCacheSet", nkeys); }
+    std::string name() const { return vh::fmt("%s%s-k%d", IsMap ? "LruCacheMap" : "LruCacheSet", KO::nm(), nkeys); }
 
     struct State {
         const LruSys* sys;
@@ -40,8 +58,8 @@ struct LruSys {
         bool bad = false;
         explicit State(const LruSys* s) : sys(s) {
             c17::cur_ledger() = &led;
-            if constexpr (IsMap) c.reset(new Cache(CountingAlloc<std::pair<int, int>>(&led)));
-            else c.reset(new Cache(CountingAlloc<int>(&led)));
+            if constexpr (IsMap) c.reset(new Cache(CountingAlloc<std::pair<KT, int>>(&led)));
+            else c.reset(new Cache(CountingAlloc<KT>(&led)));
         }
         ~State() {
             c17::cur_ledger() = &led;
@@ -82,10 +100,10 @@ struct LruSys {
         return r;
     }
 
-    static int ekey(const int& e) { return e; }
-    static int eval(const int&) { return 0; }
-    static int ekey(const KV& e) { return e.first; }
-    static int eval(const KV& e) { return e.second; }
+    static int ekey(const KT& e) { return KO::get(e); }
+    static int eval(const KT&) { return 0; }
+    static int ekey(const std::pair<KT, int>& e) { return KO::get(e.first); }
+    static int eval(const std::pair<KT, int>& e) { return e.second; }
 
     typename std::list<KV>::iterator mfind(State& s, int k) {
         return std::find_if(s.model.begin(), s.model.end(), [k](const KV& e) { return e.first == k; });
@@ -125,7 +143,7 @@ struct LruSys {
             return;
         }
         for (auto lit = L.begin(); lit != L.end(); ++lit) {
-            auto mit = M.find(ekey(*lit));
+            auto mit = M.find(KO::make(ekey(*lit)));
             if (mit == M.end() || mit->second != lit) {
                 fail(s, "index", vh::fmt("map_ entry of key %d is missing or points to another list position", ekey(*lit)));
                 return;
@@ -146,29 +164,30 @@ struct LruSys {
         Cache& c = *s.c;
         auto mi = mfind(s, k);
         bool present = mi != s.model.end();
+        const KT kk = KO::make(k);
         switch (kind) {
         case PUT:
-            if constexpr (IsMap) c.put(k, v);
-            else c.put(k);
+            if constexpr (IsMap) c.put(kk, v);
+            else c.put(kk);
             if (present) s.model.erase(mi);
             s.model.push_front(KV(k, v));
             break;
         case TOUCH:
-            call(s, !present, "", [&] { c.touch(k); });
+            call(s, !present, "", [&] { c.touch(kk); });
             if (present) s.model.splice(s.model.begin(), s.model, mi);
             break;
         case TOUCH_IF: {
-            bool r = c.touch_if_exists(k);
+            bool r = c.touch_if_exists(kk);
             if (r != present) fail(s, "return-value", vh::fmt("touch_if_exists(%d) = %d, key present: %d", k, (int)r, (int)present));
             if (present) s.model.splice(s.model.begin(), s.model, mi);
             break;
         }
         case ERASE:
-            call(s, !present, "", [&] { c.erase(k); });
+            call(s, !present, "", [&] { c.erase(kk); });
             if (present) s.model.erase(mi);
             break;
         case ERASE_IF: {
-            bool r = c.erase_if_exists(k);
+            bool r = c.erase_if_exists(kk);
             if (r != present) fail(s, "return-value", vh::fmt("erase_if_exists(%d) = %d, key present: %d", k, (int)r, (int)present));
             if (present) s.model.erase(mi);
             break;
@@ -176,7 +195,7 @@ struct LruSys {
         case GET_TOUCH:
             if constexpr (IsMap) {
                 int got = -1;
-                call(s, !present, "", [&] { got = c.get_touch(k); });
+                call(s, !present, "", [&] { got = c.get_touch(kk); });
                 if (present) {
                     if (!s.bad && got != mi->second) fail(s, "return-value", vh::fmt("get_touch(%d) = %d, latest value put is %d", k, got, mi->second));
                     s.model.splice(s.model.begin(), s.model, mi);
@@ -186,8 +205,11 @@ struct LruSys {
         case POP: {
             KV want = s.model.back();
             KV got;
-            if constexpr (IsMap) got = c.pop();
-            else got = KV(c.pop(), 0);
+            if constexpr (IsMap) {
+                std::pair<KT, int> g = c.pop();
+                got = KV(KO::get(g.first), g.second);
+            } else
+                got = KV(KO::get(c.pop()), 0);
             if (got != want)
                 fail(s, "not-least-recently-used",
                      IsMap ? vh::fmt("pop() = (%d,%d), least recently put/touched entry is (%d,%d)", got.first, got.second, want.first, want.second)
@@ -213,11 +235,11 @@ struct LruSys {
         for (int k = 0; k < nkeys; ++k) {
             auto mi = mfind(s, k);
             bool present = mi != s.model.end();
-            bool ex = c.exists(k);
+            bool ex = c.exists(KO::make(k));
             if (ex != present) fail(s, "exists", vh::fmt("exists(%d) = %d, reference %d", k, (int)ex, (int)present));
             if constexpr (IsMap) {
                 int got = -1;
-                call(s, !present, "get-", [&] { got = c.get(k); });
+                call(s, !present, "get-", [&] { got = c.get(KO::make(k)); });
                 if (present && !s.bad && got != mi->second) fail(s, "get-value", vh::fmt("get(%d) = %d, latest value put is %d", k, got, mi->second));
             }
         }
@@ -232,7 +254,7 @@ struct LruSys {
         for (auto& e : L) r += IsMap ? vh::fmt(" %d=%d", ekey(e), eval(e)) : vh::fmt(" %d", ekey(e));
         r += " |M:";
         for (int k = 0; k < nkeys; ++k) {
-            auto mit = M.find(k);
+            auto mit = M.find(KO::make(k));
             if (mit == M.end()) {
                 r += " -";
                 continue;
@@ -254,11 +276,17 @@ int main(int argc, char** argv) {
     quick.push_back(c17::make_cfg(LruSys<false>(4),
                                   "LruCacheSet-k4: e.g. put(0) put(1) touch(0) touch(3)->range_error erase_if_exists(2)->false pop()->1 clear() put(0) — "
                                   "closure over all such histories; internal list_ == reference list after every op"));
+    quick.push_back(c17::make_cfg(LruSys<true, std::string>(3),
+                                  "LruCacheMap-strkeys-k3: the same closure with heap-owning std::string keys (a moved-from key is empty): keys read after a move, "
+                                  "dangling index entries and use-after-free show here"));
+    quick.push_back(c17::make_cfg(LruSys<false, std::string>(3), "LruCacheSet-strkeys-k3: as above for the set"));
     quick.push_back(c17::make_cfg(LruSys<true>(4),
                                   "LruCacheMap-k4: e.g. put(0,1) put(1,0) get_touch(0)->1 put(1,1) pop()->(0,1) get(0)->range_error — closure, values {0,1}"));
     int nk = (int)vh::args().opt_int("lrukeys", 6);
     thorough.push_back(c17::make_cfg(LruSys<true>(nk - 1), vh::fmt("LruCacheMap-k%d: as k4 with keys {0..%d}, values {0,1}", nk - 1, nk - 2)));
     thorough.push_back(c17::make_cfg(LruSys<false>(nk), vh::fmt("LruCacheSet-k%d: as k4 with keys {0..%d}", nk, nk - 1)));
+    thorough.push_back(c17::make_cfg(LruSys<true, std::string>(4), "LruCacheMap-strkeys-k4"));
+    thorough.push_back(c17::make_cfg(LruSys<false, std::string>(5), "LruCacheSet-strkeys-k5"));
     all = quick;
     all.insert(all.end(), thorough.begin(), thorough.end());
     return c17::main_configs(vh::args().thorough() ? thorough : quick, all);
